@@ -14,7 +14,7 @@ import itertools
 import os
 import sys
 
-from .driver import Task
+from .driver import Task, drain_asyncgens
 from .instruments import (
     Cancelled,
     InjectedError,
@@ -226,7 +226,7 @@ def fault_plan(case):
 
 
 class Obs:
-    __slots__ = ("log", "ending", "released", "states", "acct", "mutations", "uses_after_fault",
+    __slots__ = ("cancel_tag", "closes", "nsusp_close", "deferred_closes", "log", "ending", "released", "states", "acct", "mutations", "uses_after_fault",
                  "exc_same", "exc_type", "nsusp", "started", "handles", "close_error", "fault_fired")
 
     def brief(self):
@@ -257,6 +257,7 @@ def execute(case, L, *, sync=False, flav=None, susp=0, fault_kind="exc", cancel_
     rec = Recorder()
     rec.susp = 0 if sync else susp
     rec.first_item = []
+    rec.close_susp = 0
     rec.fault = fault_plan(case)
     if rec.fault is not None:
         rec.fault_exc = {"exc": InjectedError, "typeerr": InjectedTypeError, "cancel": Cancelled}[fault_kind]("injected")
@@ -319,6 +320,7 @@ def execute(case, L, *, sync=False, flav=None, susp=0, fault_kind="exc", cancel_
             nsusp[0] += 1
             if cancel_at is not None and nsusp[0] == cancel_at:
                 o.fault_fired = True
+                rec.cancel_tag = getattr(r[1], "tag", None)
                 r = t.throw(cancel_exc)
             else:
                 r = t.step()
@@ -411,18 +413,22 @@ def execute(case, L, *, sync=False, flav=None, susp=0, fault_kind="exc", cancel_
                         if hasattr(it, "close"):
                             it.close()
                     elif hasattr(it, "aclose"):
-                        r = Task(it.aclose(), rec.acct).run()
+                        t_ = Task(it.aclose(), rec.acct)
+                        r = t_.run()
+                        rec.close_susp += t_.nsusp
                         if r[0] == "raised":
                             o.close_error = repr(r[1])
             elif o.ending in ("cancel",) or (close_after_error and o.ending in ("fault", "raise")):
                 # the owner closes the library iterator it was advancing (C18)
                 if it is not None and not sync and hasattr(it, "aclose"):
-                    r = Task(it.aclose(), rec.acct).run()
+                    t_ = Task(it.aclose(), rec.acct)
+                    r = t_.run()
+                    rec.close_susp += t_.nsusp
                     if r[0] == "raised":
                         o.close_error = repr(r[1])
     finally:
         pass
-    o.log = rec.log
+    o.log = list(rec.log)
     o.released = {h.idx if hasattr(h, "idx") else j: bool(h.released) for j, h in enumerate(H, start=1)}
     o.states = {getattr(h, "idx", j): getattr(h, "state", "?") for j, h in enumerate(H, start=1)}
     o.acct = rec.acct
@@ -431,6 +437,11 @@ def execute(case, L, *, sync=False, flav=None, susp=0, fault_kind="exc", cancel_
     o.nsusp = nsusp[0]
     o.fault_fired = bool(rec.fault_fired or o.fault_fired)
     o.handles = H
+    o.closes = {getattr(h, "idx", j): getattr(h, "closes", 0) for j, h in enumerate(H, start=1)}
+    o.nsusp_close = rec.close_susp
+    o.cancel_tag = getattr(rec, "cancel_tag", None)
+    del it, thunk
+    o.deferred_closes = drain_asyncgens(rec.acct)   # what a loop would clean up later
     return o
 
 
